@@ -38,8 +38,19 @@ JudgeSl(ev) ==
    IN /\ UNCHANGED scr
       /\ IF mm # {} THEN Flag(l, SetToSeq(mm), exp) /\ sync' = FALSE ELSE sync' = TRUE
 
+\* vt100_left(buf, n): the cursor-left sequence both terminals emit on every redraw is ESC [ <n in decimal> D, NUL terminated,
+\* and the returned length is that of the sequence - for every n (lines longer than 2^16 columns included)
+RECURSIVE DecDigits(_)
+DecDigits(n) == IF n < 10 THEN <<48 + n>> ELSE Append(DecDigits(n \div 10), 48 + (n % 10))
+JudgeVt(ev) ==
+   LET want == <<27, 91>> \o DecDigits(ev.n) \o <<68>>
+       exp == [out |-> want \o <<0>>, ret |-> Len(want)]
+       mm == Mismatch(ev, exp) \cup (IF ev.gl # Guard \/ ev.gr # Guard THEN {"guard"} ELSE {})
+   IN /\ UNCHANGED <<vars, scr>>
+      /\ IF mm # {} THEN Flag(l, SetToSeq(mm), exp) /\ sync' = TRUE ELSE sync' = TRUE
 Step(ev) ==
    CASE ev.e = "Key"   -> Key(ev.k) /\ JudgeKey(ev, outp', scr)
+     [] ev.e = "VtLeft" -> JudgeVt(ev)
      [] ev.e = "SlPut" -> SlPut(ev.c) /\ JudgeSl(ev)
      [] ev.e = "SlNew" -> SlNew(ev.s) /\ JudgeSl(ev)
      [] ev.e = "SlBs"  -> SlBs(ev.n) /\ JudgeSl(ev)
